@@ -44,6 +44,7 @@ struct Tr {
   std::set<std::string> root_names;
   std::map<std::string, std::string> mem_helpers;
   std::vector<std::string> undefined;
+  bool need_realloc = false;
   std::string entry;
 
   explicit Tr(Module& m) : M(m), DL(m.getDataLayout()) {}
@@ -955,6 +956,12 @@ struct Tr {
                                       : "((unsigned char*)malloc(ll2c_cap(" + val(SZ) + " / 8UL) * 8UL))";
       }
     }
+    if (F && F->isDeclaration() && F->getName() == "realloc" && !isa<ConstantInt>(CB->getArgOperand(1))) {
+      need_realloc = true; // symbolic size: fixed-capacity byte object, exceeding the capacity is reported
+      return "ll2c_realloc(" + arg(0) + ", " + arg(1) + ")";
+    }
+    if (F && F->isDeclaration() && F->getName() == "bcmp") // clang turns memcmp()==0 into bcmp(); CBMC only models memcmp
+      return "((unsigned int)memcmp((void*)" + arg(0) + ", (void*)" + arg(1) + ", " + arg(2) + "))";
     std::string callee;
     FunctionType* FT = CB->getFunctionType();
     bool libc        = false;
@@ -1251,6 +1258,11 @@ struct Tr {
     O << "#ifndef LL2C_MEMCAP\n#define LL2C_MEMCAP 8UL\n#endif\n";
     for (auto& [n, h] : mem_helpers)
       O << h;
+    if (need_realloc)
+      O << "#ifdef __CPROVER__\nstatic unsigned char* ll2c_realloc(unsigned char* p, unsigned long n)\n{\n"
+           "  __CPROVER_assert(n <= LL2C_MEMCAP, \"allocation capacity bound\");\n  unsigned char* q = malloc(LL2C_MEMCAP);\n"
+           "  if (p) {\n    unsigned long old = __CPROVER_OBJECT_SIZE(p);\n    for (unsigned long i = 0; i < LL2C_MEMCAP && i < old && i < n; i++)\n      q[i] = p[i];\n"
+           "    free(p);\n  }\n  return q;\n}\n#else\n#define ll2c_realloc(p, n) ((unsigned char*)realloc((p), (n)))\n#endif\n";
     O << "#ifndef LL2C_NIN\n#define LL2C_NIN 64\n#endif\nunsigned long ll2c_in[LL2C_NIN];\nunsigned int ll2c_nin;\n";
     O << GO.str() << PO.str() << GI.str() << "\n" << nondets << FO.str();
     // entry wrapper: runs the kept static initialisers (if any) and then the harness entry
